@@ -2082,6 +2082,10 @@ class PyCdlib:
                                       last_physical_extent - 256}
 
         for loc in potential_anchor_locations:
+            if loc < 0:
+                # The ISO is smaller than 256 extents (or the PVD claims it
+                # is), so there cannot be an anchor at this location.
+                continue
             self._seek_to_extent(loc)
             potential_anchor_data = self._cdfp.read(self.logical_block_size)
             potential_anchor = udfmod.parse_anchor(potential_anchor_data, loc)
